@@ -6,7 +6,7 @@ VERIF = os.path.dirname(os.path.dirname(os.path.abspath(__file__)))
 
 TEXT = {
  "C01": ("proof of the codec layer only: Verus proves the Shadowsocks chunk encoder refines wire_chunks and the decoder refines the maximal-munch parse, and lemma_chunks_roundtrip proves parse(wire(x)++tail) returns exactly x for every write size and cap. The Shadowsocks PayloadCodec wrappers the relays use are under contract too (server: every plaintext the cipher delivers goes out, the first item carries the session's target address; legacy ciphers take it from the first plaintext). SOCKS/HTTP handshake I/O, relay pumps, transports and schedules are async code out of reach and are not decided.", "7 C01"),
- "C02": ("proof of the codec layer only: datagram encode/decode contracts (SOCKS5 UDP codec, Shadowsocks encode_packet/decode_packet) state whole-or-error delivery with the exact address bytes; the Shadowsocks 2022 UDP decoders (client and server side, AES and XChaCha variants, identity header) refine a SIP022 packet spec; Ord for Address makes binding-table keys collide only for equal addresses. The 2022 UDP encoders (unsafe advance_mut), association tables, channels and sockets are not decided.", "7 C02"),
+ "C02": ("proof of the codec layer only: datagram encode/decode contracts (SOCKS5 UDP codec, Shadowsocks encode_packet/decode_packet) state whole-or-error delivery with the exact address bytes; the Shadowsocks 2022 UDP decoders (client and server side, AES and XChaCha variants, identity header) refine a SIP022 packet spec; Ord for Address makes binding-table keys collide only for equal addresses. The 2022 UDP encoders (client and server side, AES and XChaCha variants) refine the SIP022 wire layout for exactly this session id, packet id, address and payload, and lemma_udp22_c2s_roundtrip / lemma_udp22_s2c_roundtrip prove that the decoders' packet specification reads back the same ids, address and payload. WebSocketFramed::start_send puts one item into one binary message. Association tables, channels and sockets are not decided.", "7 C02"),
  "C03": ("Verus proves the real encoders/decoders refine spec functions transcribed from the published formats (chunk framing, nonce sequence starting at 0 and incrementing little-endian, RFC 1928 addresses) over named uninterpreted AEAD primitives; a self-consistent deviation on one side fails the refinement.", "7 C03"),
  "C04": ("Verus proves each stream decoder refines a maximal-munch parse spec function (complete units are delivered at once, an incomplete unit is left untouched) and lemma_parse_compose proves parse(x++y) = parse(x) then parse(rest++y) for every cut, by induction: independence from all segmentations under the quoted FramedRead driver hypothesis. For ws/wss the driver itself is under contract: WebSocketFramed::poll_next feeds the decoder exactly the concatenated payloads of the data messages (nothing lost, repeated or reordered whatever the message boundaries), answers Pending only right after the transport answered Pending (waker registered) and only when the decoder waits on everything buffered; its termination is not proved.", "7 C04"),
  "C05": ("Verus proves release discipline on the real decoders: every byte appended to the output is the result of a successful AEAD open under the session key with the next counter value; length fields are used only after their own open succeeded; Err yields no output. With the stated INT-CTXT hypothesis this gives prefix-only release. The hypothesis that the driver stops at the first decode error is tokio_util's for FramedRead (quoted) and proved for WebSocketFramed::poll_next (decode is never called again after an error, the stream ends).", "7 C05"),
